@@ -321,6 +321,52 @@ JSON_FUNCS = {
 }
 
 
+def _core_import_calls(rng):
+    """valid calls of btclib.core_import: a `listdescriptors` reply and an `importdescriptors` exchange"""
+    descs = [d for d in S.TEXT.get("btclib.descriptors.descriptors.strip_checksum", []) if "#" in d][:12] or ["pk(00)#00000000"]
+    d = rng.choice(descs)
+    entries = []
+    for e in rng.sample(descs, min(len(descs), rng.choice([1, 2, 3]))) + [d]:
+        ent = {"desc": e, "timestamp": rng.choice([0, 1700000000, "now"]), "active": rng.choice([True, False]),
+               "internal": rng.choice([True, False])}
+        if rng.random() < 0.7:
+            lo = rng.choice([0, 5, 1000])
+            ent["range"] = [lo, lo + rng.choice([0, 999, 2**31 - 1])]
+            ent["next"] = lo
+            ent["next_index"] = lo
+        entries.append(ent)
+    reply = {"wallet_name": "w", "descriptors": entries}
+    request = {"desc": d, "timestamp": "now", "active": True, "internal": False, "range": [0, 999]}
+    answers = [rng.choice([{"success": True}, {"success": True, "warnings": ["x"]},
+                           {"success": False, "error": {"code": -4, "message": "new range must include current range"}}])]
+    return [("btclib.core_import.watched_range", [d, reply], {}),
+            ("btclib.core_import.watched_range", [G.mutate_text(rng, d), reply], {}),
+            ("btclib.core_import.assert_imported", [[request], answers], {}),
+            ("btclib.core_import.widened_range", [G.T([0, 999]), rng.choice([None, G.T([5, 2000]), G.T([2000, 5]), G.T([0]), G.T([])])], {}),
+            ("btclib.core_import.import_request", [d], rng.choice([{}, {"timestamp": 0}, {"key_range": G.T([0, 10])}, {"label": "é", "internal": True, "active": False},
+                                                                  {"next_index": 5}, {"key_range": None}])),
+            ("btclib.core_import.import_request", [G.mutate_text(rng, d)], {})]
+
+
+def g_core_import(R, rng, n):
+    """the replies of a node (`listdescriptors`, `importdescriptors`) are hostile JSON like any other"""
+    done = 0
+    while done < n:
+        for ep, args, kwargs in _core_import_calls(rng):
+            r = rng.random()
+            a = list(args)
+            if r > 0.12:
+                i = rng.randrange(len(a))
+                if isinstance(a[i], (dict, list)) and not (isinstance(a[i], dict) and a[i] and set(a[i]) <= {"t", "l"}):
+                    a[i] = G.mutate_json(rng, a[i])
+                elif isinstance(a[i], str):
+                    a[i] = G.mutate_text(rng, a[i])
+                else:
+                    a[i] = rng.choice(G.wrong_values(rng))
+            C.call_spec(R, "coreimport", ep, [x if isinstance(x, dict) and x and set(x) <= {"t", "l"} else G.json_spec(x) for x in a], kwargs)
+            done += 1
+
+
 def g_json_funcs(R, rng, n):
     items = sorted(JSON_FUNCS.items())
     per = max(1, n // len(items))
@@ -346,6 +392,19 @@ def _mutate_spec(rng, s, pred=True):
         except ValueError:
             pass
         return G.mutate_text(rng, s)
+    if isinstance(s, dict) and "flag" in s:
+        from btclib.script.engine.flags import ALL_FLAGS
+        return {"flag": rng.choice([0, ALL_FLAGS.value, s["flag"] ^ (1 << rng.randrange(20)) & ALL_FLAGS.value, rng.getrandbits(32) & ALL_FLAGS.value])}
+    if isinstance(s, dict) and "call" in s:
+        name, cargs, ckw = s["call"]
+        cargs = list(cargs)
+        if cargs:
+            i = rng.randrange(len(cargs))
+            cargs[i] = _mutate_spec(rng, cargs[i], pred)
+        return {"call": [name, cargs, ckw]}
+    if isinstance(s, dict) and "obj" in s:
+        name, hx = s["obj"]
+        return {"obj": [name, G.mutate_bytes(rng, bytes.fromhex(hx)).hex()]}
     if isinstance(s, bool):
         return not s
     if isinstance(s, int):
@@ -441,6 +500,14 @@ def value_for(ann, rng, pred, pname=""):
         if r < 0.8:
             return G.mutate_text(rng, rng.choice(pool), pool)
         return G.random_text(rng)
+    if o in ("ScriptFlag", "ScriptFlags"):
+        from btclib.script.engine.flags import ALL_FLAGS, ScriptFlag
+        r = rng.random()
+        if o == "ScriptFlags" and r < 0.35:
+            names = [m.name for m in ScriptFlag if m.name]
+            k = rng.sample(names, rng.choice([0, 1, 2, 5]))
+            return rng.choice([",".join(k), L(k), "NONE", "bogus", "", L(["P2SH", "bogus"]), ",".join(k).lower()])
+        return {"flag": rng.choice([0, ALL_FLAGS.value, rng.getrandbits(32) & ALL_FLAGS.value, 1])}
     if o in ("int", "Integer"):
         # configuration integers (sizes, indexes, counts) are not the hostile bytes/text/JSON the property
         # quantifies over: plausible values only; hostile integers live inside byte fields and JSON documents
@@ -704,5 +771,5 @@ def g_ms_decode(R, rng, n):
 
 GROUPS = {
     "binary": g_binary_classes, "binfunc": g_binary_funcs, "text": g_text, "json": g_json, "jsonfunc": g_json_funcs,
-    "pred": g_pred, "generic": g_generic, "deep": g_deep, "psbtdegenerate": g_psbt_degenerate, "msdecode": g_ms_decode, "textcodec": g_textcodec, "witness": g_witness_consumers,
+    "pred": g_pred, "generic": g_generic, "deep": g_deep, "psbtdegenerate": g_psbt_degenerate, "msdecode": g_ms_decode, "coreimport": g_core_import, "textcodec": g_textcodec, "witness": g_witness_consumers,
 }
